@@ -12,6 +12,8 @@ package main
 import (
 	"bytes"
 	"fmt"
+	"os"
+	"runtime/pprof"
 	"sort"
 	"strings"
 	"time"
@@ -81,12 +83,34 @@ var (
 	maxTot  int
 	optOps  int // number of opt operations after the first segment (limit monitors need fixed limits)
 	segSeen bool
+	sinceFresh int
 	orc     map[int]*oracle
 )
 
+// reset starts a new case.  Allocating an Assembler costs several milliseconds (its page cache is
+// 1024 pages of 1900 bytes), so the previous one is kept when the verif hooks show that it is
+// completely empty again (no connection, no page in use) and it neither panicked nor hung; it is
+// replaced unconditionally every 200 cases.  With connection.reset clearing every field
+// (fix asm-3) an empty assembler carries no observable state from one case to the next.
 func reset() {
-	pool = tcpassembly.NewStreamPool(factory{})
-	asm = tcpassembly.NewAssembler(pool)
+	reuse := false
+	if asm != nil && !dead && sinceFresh < 200 {
+		events = events[:0]
+		if !guarded(func() {
+			defer func() { recover() }()
+			asm.FlushAll()
+		}) && pool.VerifConnCount() == 0 && asm.VerifPagesUsed() == 0 {
+			reuse = true
+		}
+	}
+	if reuse {
+		sinceFresh++
+		asm.MaxBufferedPagesPerConnection, asm.MaxBufferedPagesTotal = 0, 0
+	} else {
+		sinceFresh = 0
+		pool = tcpassembly.NewStreamPool(factory{})
+		asm = tcpassembly.NewAssembler(pool)
+	}
 	events = nil
 	nextSid = 0
 	keyOf = map[[2]gopacket.Flow]int{}
@@ -94,6 +118,8 @@ func reset() {
 	dead = false
 	maxPer, maxTot, optOps, segSeen = 0, 0, 0, false
 	orc = map[int]*oracle{}
+	completeCount = map[int]int{}
+	createdCount = 0
 }
 
 func flowsFor(conn, dir int) (gopacket.Flow, gopacket.Flow, layers.TCPPort, layers.TCPPort) {
@@ -378,6 +404,11 @@ func runExec(a []string) string {
 }
 
 func main() {
+	if p := os.Getenv("GPASM_PROF"); p != "" {
+		f, _ := os.Create(p)
+		pprof.StartCPUProfile(f)
+		defer pprof.StopCPUProfile()
+	}
 	lib.Main(lib.Engine{Name: "asm", Gen: gen, Reset: reset, Exec: runExec})
 }
 
